@@ -165,6 +165,18 @@ def do_replay(path):
         if rep:
             print('  REPRODUCED on the real code; failing checks: %s' % '; '.join(failures))
             return 1
+        # state that the code under test keeps at class / module level survives from one session to the next inside one process (the
+        # exploration runs many sessions per process): run the same session a second time in this process
+        try:
+            rep, failures, notes, err = symx.replay(lambda ctx: ob.run(ctx, case), d['cex'])
+        except Exception as e:
+            if symx.harness_object_error(e):
+                return 2
+            rep, failures, notes, err = True, ['exception: ' + ''.join(traceback.format_exception_only(type(e), e)).strip()], [], None
+            traceback.print_exc()
+        if rep and not err:
+            print('  REPRODUCED on the real code in a SECOND session of the same process (state kept at class/module level survives the first); failing checks: %s' % '; '.join(failures))
+            return 1
         print('  not reproduced: all checks hold on these concrete values')
         return 0
     else:
@@ -211,10 +223,27 @@ def main(argv):
     # longest first where the harness gives a hint
     results = []
     ctx = multiprocessing.get_context('fork')
+    first_cex_at = None
+    grace = int(os.environ.get('VERIF_AFTER_CEX_S', '240'))
+    stopped_early = False
     with ctx.Pool(min(jobs, max(1, len(_TASKS)))) as pool:
-        for r in pool.imap_unordered(_run_task, range(len(_TASKS)), chunksize=1):
+        it = pool.imap_unordered(_run_task, range(len(_TASKS)), chunksize=1)
+        while True:
+            try:
+                # once a candidate violation exists the remaining cases get a grace period, then the run is cut short (a changed tree
+                # can make every further case arbitrarily slow; the unchanged tree never gets here)
+                r = it.next(timeout=None if first_cex_at is None else max(1.0, first_cex_at + grace - time.time()))
+            except StopIteration:
+                break
+            except multiprocessing.TimeoutError:
+                stopped_early = True
+                pool.terminate()
+                print('  [%s] stopping: %d s after the first candidate violation; %d of %d cases finished' % (pid, grace, len(results), len(_TASKS)))
+                break
             results.append(r)
             o = obs[r['ob']]
+            if r['status'] == 'cex' and not o.expect_cex and first_cex_at is None:
+                first_cex_at = time.time()
             if r['status'] not in ('ok',) or os.environ.get('VERIF_VERBOSE'):
                 print('  [%s] %s case %r: %s %s (%d paths, %d queries, %.1fs)' % (
                     pid, o.name, _short(o.cases[r['case']]), r['status'], r.get('detail', '') or r.get('failed', '') or '',
@@ -273,7 +302,8 @@ def main(argv):
                 rc, out = (1, 'REPRODUCED: the replay of this witness on the real code does not terminate (killed after %d s)' % max(60, 3 * int(os.environ.get('VERIF_PATH_TIMEOUT', '60'))))
                 if not hang:
                     r = dict(r, failed='does not terminate on the real code (found while replaying: %s)' % r.get('failed'))
-            if rc == 0 and o.kind == 'symx':
+            if rc == 0 and o.kind == 'symx' and d.get('isolated_retries', 0) < 2:
+                d['isolated_retries'] = d.get('isolated_retries', 0) + 1
                 # the witness does not reproduce in a fresh process: state kept by the code under test may have leaked from an earlier
                 # path of the exploration. Explore this case again with every path in its own process and replay what that finds.
                 from lib import symx as _sx
@@ -316,6 +346,8 @@ def main(argv):
         else:
             d['status'] = 'harness-error'
             errors.append('%s case %r: %s' % (o.name, _short(case), r.get('detail', '')))
+    if stopped_early and not violations:
+        errors.append('run cut short after a candidate violation that did not reproduce; %d of %d cases finished' % (len(results), len(_TASKS)))
     # known findings that are still present are reported by the harness' own probes
     for kf, obname in known_hits:
         pass
